@@ -40,3 +40,23 @@ Theorem C15_inout_nullable_refuted_before_fix :
                 /\ rf_optional (read_param false (emit ps sl)) = true.
 Proof. exact inout_nullable_refuted_before_fix. Qed.
 Print Assumptions C15_inout_nullable_refuted_before_fix.
+
+(* return values: nullability, skip and transfer survive the hand-over *)
+Theorem C15_return_flags_roundtrip : forall ps sl,
+  sl_is_return sl = true ->
+  read_return (emit ps sl)
+  = (sl_nullable sl && negb (sl_not_nullable sl), sl_skip sl,
+     match sl_transfer sl with Some TNone => Some 0 | Some TContainer => Some 1 | Some TFull => Some 2
+                          | None => if sl_skip sl then Some 0 else None end).
+Proof. exact roundtrip_return. Qed.
+Print Assumptions C15_return_flags_roundtrip.
+
+(* scope, closure and destroy of a callback parameter survive the hand-over *)
+Theorem C15_callback_links_roundtrip : forall ps sl,
+  sl_is_return sl = false ->
+  let r := read_param true (emit ps sl) in
+  rf_scope r = scope_code (sl_scope sl)
+  /\ rf_closure r = match sl_closure sl with Some n => slot_index ps n | None => None end
+  /\ rf_destroy r = match sl_destroy sl with Some n => slot_index ps n | None => None end.
+Proof. exact roundtrip_callback_links. Qed.
+Print Assumptions C15_callback_links_roundtrip.
